@@ -36,8 +36,8 @@ if __name__=='__main__':
     import glob, os
     d=sys.argv[1]
     if not os.path.isdir(d):
-        ds=sorted(glob.glob('/verif/.cache/facts/*-'+d), key=os.path.getmtime)
-        d=ds[-1]
+        from . import extract
+        d=extract.facts_dir(d)        # the facts of VERIF_REPO's (default /repo's) current tree
     p=Program(d)
     for b in p.find(sys.argv[2]):
         dump(b)
